@@ -324,6 +324,13 @@ func ampCases() []ampCase {
 			return []byte{0x91}
 		case 2:
 			return []byte{0x91, 0x92, 0x93}
+		case 3:
+			// more elements present than any up-front allowance: growth must stay proportional to them
+			b := make([]byte, 1100)
+			for i := range b {
+				b[i] = 0x91
+			}
+			return b
 		}
 		return nil
 	}
@@ -350,10 +357,10 @@ func ampCases() []ampCase {
 		{"reference ordinal in field", func(n int32, p int) []byte {
 			return cat([]byte{'C'}, str("Node"), []byte{0x92}, str("v"), str("next"), []byte{0x60, 0x91, 0x51}, be32(n))
 		}},
-		{"string chunk S length", func(n int32, p int) []byte { return cat([]byte{'S', byte(n >> 8), byte(n)}, []byte("abc")[:p+1]) }},
-		{"string chunk R length", func(n int32, p int) []byte { return cat([]byte{'R', byte(n >> 8), byte(n)}, []byte("abc")[:p+1]) }},
-		{"binary chunk B length", func(n int32, p int) []byte { return cat([]byte{'B', byte(n >> 8), byte(n)}, []byte{1, 2, 3}[:p+1]) }},
-		{"binary chunk 0x41 length", func(n int32, p int) []byte { return cat([]byte{0x41, byte(n >> 8), byte(n)}, []byte{1, 2, 3}[:p+1]) }},
+		{"string chunk S length", func(n int32, p int) []byte { return cat([]byte{'S', byte(n >> 8), byte(n)}, []byte("abc")[:p%3+1]) }},
+		{"string chunk R length", func(n int32, p int) []byte { return cat([]byte{'R', byte(n >> 8), byte(n)}, []byte("abc")[:p%3+1]) }},
+		{"binary chunk B length", func(n int32, p int) []byte { return cat([]byte{'B', byte(n >> 8), byte(n)}, []byte{1, 2, 3}[:p%3+1]) }},
+		{"binary chunk 0x41 length", func(n int32, p int) []byte { return cat([]byte{0x41, byte(n >> 8), byte(n)}, []byte{1, 2, 3}[:p%3+1]) }},
 		{"nested untyped lists with counts", func(n int32, p int) []byte {
 			return cat([]byte{0x58}, be32(n), []byte{0x58}, be32(n), []byte{0x58}, be32(n), elems(p))
 		}},
@@ -407,7 +414,7 @@ var ladderNames = []string{"x79 lists", "x57 lists", "H maps", "typed lists", "o
 func init() {
 	core.Register(&core.Prop{
 		ID: "C14", Level: "model_checking",
-		Rule:        "Exhaustive enumeration of hostile inputs against the real decoder (three type-map configurations: empty, knowing every class/list type of the corpus, hostile = names bound to types of the wrong kind). (1) Lazy reader exploration: the environment chooses each byte only when the decoder asks for it (or end of input): the full 256-byte alphabet to depth 2 (quick) / 3 (thorough) and a 58-byte tag-class alphabet (representatives of every tag range the grammar distinguishes) to depth 3-4 (quick) / 5 (thorough), through the streaming entry points of Decoder and Serializer. (2) One edit of a valid message (corpus: one message per zoo shape as written by the library plus reference renderings with variable lists, type back-references, hoisted definitions, long-form instances, chunked strings): every prefix, every single-byte deletion, every position x 256 replacement bytes, every position x 256 inserted bytes, through all five entry points (quick: subset of entries/configs). (3) Declared-length amplification: 14 productions carrying a length, count or index x declared value in {-2^31,-1,0,1,65535,2^20,2^31-1} x payload present in {none, one element, complete}. (4) Nesting ladders of five openers at depths 1..60000. Oracle: the call returns (a recovered panic is a violation labelled by its site; exceeding the reader step budget of 64+16 per input byte is a runaway; TotalAlloc growth above 8 MiB + 1 KiB per input byte is an allocation violation; a killed worker is attributed to the case in flight). Distinct by construction (distinct byte strings as read).",
+		Rule:        "Exhaustive enumeration of hostile inputs against the real decoder (three type-map configurations: empty, knowing every class/list type of the corpus, hostile = names bound to types of the wrong kind). (1) Lazy reader exploration: the environment chooses each byte only when the decoder asks for it (or end of input): the full 256-byte alphabet to depth 2 (quick) / 3 (thorough) and a 58-byte tag-class alphabet (representatives of every tag range the grammar distinguishes) to depth 3-4 (quick) / 5 (thorough), through the streaming entry points of Decoder and Serializer. (2) One edit of a valid message (corpus: one message per zoo shape as written by the library plus reference renderings with variable lists, type back-references, hoisted definitions, long-form instances, chunked strings): every prefix, every single-byte deletion, every position x 256 replacement bytes, every position x 256 inserted bytes, through all five entry points (quick: subset of entries/configs). (3) Declared-length amplification: 14 productions carrying a length, count or index x declared value in {-2^31,-1,0,1,65535,2^20,2^31-1} x payload present in {none, one element, three, 1100 elements}. (4) Nesting ladders of five openers at depths 1..60000. Oracle: the call returns (a recovered panic is a violation labelled by its site; exceeding the reader step budget of 64+16 per input byte is a runaway; TotalAlloc growth above 8 MiB + 1 KiB per input byte is an allocation violation; a killed worker is attributed to the case in flight). Distinct by construction (distinct byte strings as read).",
 		Assumptions: []string{"resource bounds are deterministic proxies: reader-call budget and allocation allowance", "uniformly random 64 KiB strings of the property text are replaced by the enumerated families"},
 		Units: func(tier string) []core.Unit {
 			buildCorpus()
@@ -502,7 +509,7 @@ func init() {
 			us = append(us, core.Unit{Name: "amplification", Cost: 500, Run: func(c *core.Ctx) {
 				for _, ac := range ampCases() {
 					for _, n := range []int32{-1 << 31, -1, 0, 1, 65535, 1 << 20, 1<<31 - 1} {
-						for payload := 0; payload < 3; payload++ {
+						for payload := 0; payload < 4; payload++ {
 							b := ac.mk(n, payload)
 							for cfg := 0; cfg < 3; cfg++ {
 								for entry := 0; entry < 3; entry++ {
